@@ -238,9 +238,9 @@ func openRecord12(vers uint16, s *suiteDesc, key, iv, macKey []byte, seq uint64,
 				return nil, errors.New("short CBC record")
 			}
 			civ, ct = ct[:bs], ct[bs:]
-		} else if seq != 0 {
-			return nil, errors.New("TLS 1.0 CBC chaining beyond the first record is not modelled")
 		}
+		// TLS 1.0 (RFC 2246 6.2.3.2): the IV is the key-block IV for the first record and the last
+		// ciphertext block of the previous record afterwards; the caller passes the current one as iv
 		if len(ct) == 0 || len(ct)%bs != 0 {
 			return nil, errors.New("CBC record not a multiple of the block size")
 		}
